@@ -38,10 +38,16 @@ Proof.
 Qed.
 
 (* ------------------------------------------------------------ the per-child test *)
-Lemma child_ok_spec : forall t gone o e, wf_table t = true -> alive_b t o = true -> In e t ->
-  child_ok t gone o (kp_pid e) = elig gone (o_ident o) e.
+Lemma caller_start_alive : forall fx t o, alive_b t o = true -> caller_start fx t o = Val (o_ident o).
 Proof.
-  intros t gone o e W A He. destruct (alive_facts t o A) as [_ [C _]].
+  intros fx t o A. unfold caller_start. destruct (fx_mono fx); [reflexivity|].
+  destruct (alive_facts t o A) as [_ [C _]]. exact C.
+Qed.
+
+Lemma child_ok_spec : forall fx t gone o e, wf_table t = true -> alive_b t o = true -> In e t ->
+  child_ok fx t gone o (kp_pid e) = elig gone (o_ident o) e.
+Proof.
+  intros fx t gone o e W A He. pose proof (caller_start_alive fx t o A) as C.
   destruct (wf_range t e W He) as [[R1 R2] _].
   unfold child_ok, proc_new, elig.
   assert (X1 : (kp_pid e <? 0) = false) by (apply Z.ltb_ge; exact R1). rewrite X1.
@@ -56,14 +62,14 @@ Lemma okkids_list : forall fx t gone o p, wf_table t = true -> alive_b t o = tru
 Proof.
   intros fx t gone o p W A. unfold okkids, kids, ppid_map.
   assert (G : forall l, incl l t ->
-    filter (fun q => not_self fx o q && child_ok t gone o q)
+    filter (fun q => not_self fx o q && child_ok fx t gone o q)
            (map fst (filter (fun pq => snd pq =? p) (map (fun e => (kp_pid e, kp_ppid e)) l))) =
     map kp_pid (filter (fun e => (kp_ppid e =? p) && (not_self fx o (kp_pid e) && elig gone (o_ident o) e)) l)).
   { induction l as [|e r IH]; intros Hin; [reflexivity|].
     assert (He : In e t) by (apply Hin; left; reflexivity).
     assert (Hr : incl r t) by (intros x Hx; apply Hin; right; exact Hx).
     cbn [map filter snd]. destruct (kp_ppid e =? p).
-    - cbn [map fst filter andb]. rewrite (child_ok_spec t gone o e W A He).
+    - cbn [map fst filter andb]. rewrite (child_ok_spec fx t gone o e W A He).
       destruct (not_self fx o (kp_pid e) && elig gone (o_ident o) e).
       + cbn [map]. f_equal. apply IH. exact Hr.
       + apply IH. exact Hr.
